@@ -343,7 +343,7 @@ pub fn reference(cfg: &Cfg, hist: &[Op]) -> Ref {
             let den = u.add(d);
             r.scale = 100.0;
             r.neutral = t == 1;
-            r.degenerate = t >= 2 && is_flat(tail(&xs, (n + 1).min(t)));
+            r.degenerate = t >= 2 && is_flat(tail(&xs, n.saturating_add(1).min(t)));
             if den.is_zero() || den.f() == 0.0 {
                 r.den_zero = true;
                 return r.one(50.0);
@@ -379,7 +379,7 @@ pub fn reference(cfg: &Cfg, hist: &[Op]) -> Ref {
             let xs = closes(hist);
             let prev = if t > n { xs[t - 1 - n] } else { xs[0] };
             r.scale = 100.0;
-            r.degenerate = is_flat(tail(&xs, n + 1));
+            r.degenerate = is_flat(tail(&xs, n.saturating_add(1)));
             if prev == 0.0 {
                 r.den_zero = true;
                 return r.one(0.0);
